@@ -474,7 +474,9 @@ def anchors():
     out.append((dict(one, body=[["do", "i", ["sub", ["n"], 1], ["lit", 1], -3,
                                  [["assign", ai, dbl]]]]),
                 ["anchor", "hazard_family_L"]))
-    st = dict(base, arrays=[], scalars=[
+    # (an array dimensioned by n is kept: PSyAD's harness only supports an
+    # integer argument if it dimensions an array)
+    st = dict(base, arrays=base["arrays"][:1], scalars=[
         {"name": "s", "active": True, "local": False},
         {"name": "t", "active": True, "local": False},
         {"name": "p", "active": False, "local": False}])
